@@ -19,7 +19,12 @@ VARIABLES cs, out
 FromsQuick    == {-1} \cup 0..4
 FromsThorough == {-1} \cup 0..6
 
-EffUntil(from, until, delta) == IF from # 0 /\ until = 0 THEN from + delta ELSE until
+\* A NEGATIVE anchorFrom (-1; concretised as a negative number of seconds, far before every anchoring time of the model)
+\* without anchorUntil: the default end from + delta lies before every anchoring time as well (abstractly -1), unless the
+\* delta is the largest configurable one (the default end saturates: never expires)
+InfDelta == 1000000
+EffUntil(from, until, delta) == IF from < 0 /\ until = 0 THEN (IF delta = InfDelta THEN from + delta ELSE -1)
+                                ELSE IF from # 0 /\ until = 0 THEN from + delta ELSE until
 
 InWindow(from, until, t, delta) ==
   \/ from = 0 /\ until = 0
@@ -52,9 +57,8 @@ Outcome(c) ==
   ELSE IF (c.ty = "U" /\ r[2].doc = Base.doc) \/ (c.ty = "R" /\ r[2].doc = <<>>) THEN "commitment-only" ELSE "applied"
 
 \* from = -1 stands for a NEGATIVE anchorFrom (a declared bound before every anchoring time; concretised as a negative
-\* number of seconds); it is combined with an explicit anchorUntil only (the default end from + delta is not on the
-\* abstract time scale for it)
-Cases == {c \in [ty : Types, from : Froms, until : Untils, t : Times, delta : Deltas, decoy : Decoys] : c.from < 0 => c.until # 0}
+\* number of seconds), with an explicit anchorUntil or with the default end (see EffUntil)
+Cases == [ty : Types, from : Froms, until : Untils, t : Times, delta : Deltas, decoy : Decoys]
 
 Init == /\ cs \in Cases
         /\ out = [view |-> Expected(cs), class |-> Outcome(cs),
